@@ -36,8 +36,11 @@ class TlcResult:
                 "ok": self.ok, "violation": self.violation, "wall_s": round(self.wall, 2)}
 
 
-def _java(xmx):
-    return ["java", "-XX:+UseParallelGC", "-Xmx" + xmx, "-Xss16m",
+def _java(xmx, light=False):
+    # light: single-worker trace-validation shards, many JVMs side by side - serial GC and C1 only
+    # (measured: 200k events on 16 shards 11.4 s with the defaults, 2.2 s with these flags)
+    gc = ["-XX:+UseSerialGC", "-XX:TieredStopAtLevel=1"] if light else ["-XX:+UseParallelGC"]
+    return ["java"] + gc + ["-Xmx" + xmx, "-Xss16m",
             "-DTLA-Library=" + COMMON,
             "-cp", JAR + ":" + DEPS]
 
@@ -48,7 +51,7 @@ def run(spec_dir, module, cfg, workers=8, xmx="8g", timeout=3000, env=None, cove
     """Run TLC on spec_dir/module.tla with spec_dir/cfg. Returns TlcResult."""
     os.makedirs(os.path.join(CACHE, "tlc"), exist_ok=True)
     meta = os.path.join(CACHE, "tlc", "md-" + uuid.uuid4().hex)
-    cmd = _java(xmx) + ["tlc2.TLC", "-workers", str(workers), "-metadir", meta,
+    cmd = _java(xmx, light=(workers == 1)) + ["tlc2.TLC", "-workers", str(workers), "-metadir", meta,
                         "-config", cfg, "-noGenerateSpecTE"]
     if coverage:
         cmd += ["-coverage", "1"]
